@@ -66,6 +66,7 @@ let () = register "xpath" (fun words ->
             out := Printf.sprintf "R %s P%d,%d" s (int_of_n (get_position c')) (int_of_n (get_size c')) :: !out
           | [] -> ()
           | w :: _ -> raise (Bad ("section " ^ w))) secs;
-      let inv = Printf.sprintf "I %d%d" (if doc_wf_b !doc then 1 else 0) (if doc_inv_b !doc then 1 else 0) in
+      let b x = if x then 1 else 0 in
+      let inv = Printf.sprintf "I %d%d%d%d" (b (doc_wf_b !doc)) (b (doc_inv_b !doc)) (b (spec_shape_b !doc)) (b (names_ok_b !doc)) in
       String.concat " # " (List.rev (inv :: !out))
     with Bad s -> "badast " ^ s | Failure s -> "badinput " ^ s)
